@@ -2,7 +2,7 @@
    invariant R of ProofsScopeDefs.v for every construct (mutual induction over
    the syntax, in the traversal order of the model). *)
 From Coq Require Import String Ascii List Bool Arith NArith Lia.
-From SV Require Import C09.Syntax C09.Model C09.Spec C09.ScopeSpec C09.Unfold C09.Proofs C09.ProofsScopeDefs.
+From SV Require Import C09.Syntax C09.Model C09.Spec C09.ScopeSpec C09.Unfold C09.Proofs C09.ProofsScopeDefs C09.ProofsScopeDefs2.
 Import ListNotations.
 
 Section Wk.
@@ -12,61 +12,17 @@ Notation R := (R W).
 Notation WF := (WF W).
 Notation flof := (flof opts).
 
-Lemma Neutral_errorf' a b r n : Neutral a b -> r <> RUndefined -> Neutral a (errorf b r n).
-Proof. intros H Hr. eapply Neutral_trans; [exact H|apply Neutral_errorf; auto]. Qed.
-
-Lemma Neutral_eq st st' :
-  blocks st' = blocks st -> env st' = env st -> globals st' = globals st -> fileb st' = fileb st ->
-  premem st' = premem st -> buses st' = buses st -> errs st' = errs st -> Neutral st st'.
-Proof. intros. repeat split; auto; unfold und; congruence. Qed.
-
-Lemma Neutral_set_loops a b k : Neutral a b -> Neutral a (set_loops b k).
-Proof. intros H. eapply Neutral_trans; [exact H|apply Neutral_eq; reflexivity]. Qed.
-Lemma Neutral_set_ifstmts a b k : Neutral a b -> Neutral a (set_ifstmts b k).
-Proof. intros H. eapply Neutral_trans; [exact H|apply Neutral_eq; reflexivity]. Qed.
-Lemma Neutral_set_fdepth a b k : Neutral a b -> Neutral a (set_fdepth b k).
-Proof. intros H. eapply Neutral_trans; [exact H|apply Neutral_eq; reflexivity]. Qed.
-
 Ltac neu :=
   cbv zeta;
   repeat match goal with
   | |- Neutral ?s ?s => apply Neutral_refl
-  | |- Neutral _ (errorf _ _ _) => apply Neutral_errorf'; [|discriminate]
+  | |- Neutral _ (errorf _ _ _) => apply Neutral_errorf'; [|reflexivity]
   | |- Neutral _ (set_loops _ _) => apply Neutral_set_loops
   | |- Neutral _ (set_ifstmts _ _) => apply Neutral_set_ifstmts
   | |- Neutral _ (set_fdepth _ _) => apply Neutral_set_fdepth
   | |- Neutral _ (gate _ _ _ _) => unfold gate
   | |- Neutral _ (if ?c then _ else _) => destruct c
   end.
-
-Lemma R_pre' st st0 st' ns us g f :
-  Neutral st st0 ->
-  (WF st0 -> env st0 = env st -> globals st0 = globals st -> fileb st0 = fileb st -> R st0 st' ns us g f) ->
-  WF st -> R st st' ns us g f.
-Proof.
-  intros N H Hw. eapply R_pre; [exact N|]. pose proof N as (A1 & A2 & A3 & A4 & _).
-  apply H; auto. eapply WF_Neutral; eauto.
-Qed.
-
-Lemma R_then_eq st st1 st2 ns ns1 ns2 us us1 us2 g1 f1 g2 f2 :
-  WF st -> R st st1 ns1 us1 g1 f1 ->
-  (WF st1 -> env st1 = env st -> globals st1 = g1 -> fileb st1 = f1 -> R st1 st2 ns2 us2 g2 f2) ->
-  ns = ns1 ++ ns2 -> us = us1 ++ us2 ->
-  R st st2 ns us g2 f2.
-Proof. intros Hw H1 H2 -> ->. eapply R_then; eauto. Qed.
-
-Lemma R_skip st : WF st -> R st st [] [] (globals st) (fileb st).
-Proof. intros Hw. apply R_neutral; auto. apply Neutral_refl. Qed.
-
-Lemma WF_enter st : WF st -> WF (enter_fn st).
-Proof. intros H. eapply WF_Neutral; [|apply (WF_push W st true); exact H]. apply Neutral_eq; reflexivity. Qed.
-
-Lemma R_fn st X ns us g f : WF st -> R (enter_fn st) X ns us g f -> R st (leave_fn st X) [] (map (under ns) us) g f.
-Proof.
-  intros Hw H. eapply R_post.
-  - eapply R_block; [exact Hw|]. eapply R_pre; [|exact H]. apply Neutral_eq; reflexivity.
-  - unfold leave_fn. neu.
-Qed.
 
 Lemma flof_blk st : top st = false -> None = flof st.
 Proof. unfold ProofsScopeDefs.flof. intros ->. reflexivity. Qed.
@@ -89,25 +45,25 @@ Definition pss (p : pstate) : option string :=
   match p_starstar p with Some (_, x) => Some x | None => None end.
 
 Definition PE (e : expr) : Prop := forall st fl g f, WF st -> fl = flof st -> g = globals st -> f = fileb st ->
-  R st (expr_ opts W st e) [] (uses_expr fl e) g f.
+  R st (expr_ opts W st e) [] (uses_expr fl e) g f [] [].
 Definition PEs (es : exprs) : Prop := forall st fl g f, WF st -> fl = flof st -> g = globals st -> f = fileb st ->
-  R st (exprs_ opts W st es) [] (uses_exprs fl es) g f.
+  R st (exprs_ opts W st es) [] (uses_exprs fl es) g f [] [].
 Definition PA (a : args) : Prop := forall st ast fl g f, WF st -> fl = flof st -> g = globals st -> f = fileb st ->
-  R st (fst (args_ opts W st ast a)) [] (uses_args fl a) g f.
+  R st (fst (args_ opts W st ast a)) [] (uses_args fl a) g f [] [].
 Definition PP (ps : params) : Prop :=
   (forall st fl g f, WF st -> fl = flof st -> g = globals st -> f = fileb st ->
-     R st (defaults_ opts W st ps) [] (uses_defaults fl ps) g f) /\
+     R st (defaults_ opts W st ps) [] (uses_defaults fl ps) g f [] []) /\
   (forall st p g f, WF st -> top st = false -> g = globals st -> f = fileb st ->
-     R st (params_ opts W st p ps) (pn (pstar p) (pss p) ps) [] g f).
+     R st (params_ opts W st p ps) (pn (pstar p) (pss p) ps) [] g f [] []).
 Definition PC (cl : clauses) : Prop := forall st g f, WF st -> top st = false -> g = globals st -> f = fileb st ->
-  R st (clauses_ opts W st cl) (clause_names cl) (uses_clauses cl) g f.
+  R st (clauses_ opts W st cl) (clause_names cl) (uses_clauses cl) g f [] [].
 Definition PL (l : lhs) : Prop := forall st aug g f, WF st -> top st = false -> g = globals st -> f = fileb st ->
-  R st (assign_ opts W st aug l) (lhs_names l) (uses_lhs l) g f.
+  R st (assign_ opts W st aug l) (lhs_names l) (uses_lhs l) g f [] [].
 Definition PLs (ls : lhss) : Prop := forall st aug g f, WF st -> top st = false -> g = globals st -> f = fileb st ->
-  R st (assigns_ opts W st aug ls) (lhss_names ls) (uses_lhss ls) g f.
+  R st (assigns_ opts W st aug ls) (lhss_names ls) (uses_lhss ls) g f [] [].
 
 Ltac chain :=
-  eapply R_then_eq; [assumption | | intros Hw1 He1 Hg1 Hf1 | |].
+  eapply R_then_eq; [assumption | | intros Hw1 He1 Hg1 Hf1 | | | |].
 
 Theorem walk_scope_exprs :
   (forall e, PE e) /\ (forall es, PEs es) /\ (forall a, PA a) /\ (forall ps, PP ps) /\
@@ -119,50 +75,50 @@ Proof.
   - (* EOp *) intros es IH st fl g f Hw Hfl Hg Hf. rewrite u_EOp. apply IH; auto.
   - (* ECall *) intros n fe IHf a IHa st fl g f Hw Hfl Hg Hf. rewrite u_ECall. cbv zeta.
     apply R_post with (st1 := fst (args_ opts W (expr_ opts W st fe) a0 a)); [|neu].
-    chain; [apply (IHf _ fl g f); side | apply (IHa _ _ fl g f); side | reflexivity | reflexivity].
+    chain; [apply (IHf _ fl g f); side | apply (IHa _ _ fl g f); side | reflexivity | reflexivity | reflexivity | reflexivity].
   - (* ELambda *) intros n ps [IHd IHp] body IHb st fl g f Hw Hfl Hg Hf. rewrite u_ELambda. cbv zeta.
-    chain; [apply (IHd _ fl g f); side | | reflexivity | reflexivity].
+    chain; [apply (IHd _ fl g f); side | | reflexivity | reflexivity | reflexivity | reflexivity].
     apply R_fn; [exact Hw1|].
-    pose proof (WF_enter _ Hw1) as Hwe.
-    eapply R_then_eq; [exact Hwe | apply (IHp _ p0 g f); side | intros Hw2 He2 Hg2 Hf2; apply (IHb _ None g f); try side | | reflexivity].
+    pose proof (WF_enter W _ Hw1) as Hwe.
+    eapply R_then_eq; [exact Hwe | apply (IHp _ p0 g f); side | intros Hw2 He2 Hg2 Hf2; apply (IHb _ None g f); try side | | reflexivity | reflexivity | reflexivity].
     + apply flof_blk. unfold top. rewrite He2. reflexivity.
     + unfold bound_params. simpl. rewrite app_nil_r. reflexivity.
   - (* EComp *) intros n iter IHi vars IHv cl IHc body IHb st fl g f Hw Hfl Hg Hf. rewrite u_EComp.
-    chain; [apply (IHi _ fl g f); side | | reflexivity | reflexivity].
+    chain; [apply (IHi _ fl g f); side | | reflexivity | reflexivity | reflexivity | reflexivity].
     eapply R_block with (isfn := false); [exact Hw1|].
     pose proof (WF_push W _ false Hw1) as Hwe.
-    eapply R_then_eq; [exact Hwe | apply (IHv _ false g f); side | intros Hw2 He2 Hg2 Hf2 | | reflexivity].
-    + eapply R_then_eq; [exact Hw2 | apply (IHc _ g f); try side | intros Hw3 He3 Hg3 Hf3; apply (IHb _ None g f); try side | | reflexivity].
+    eapply R_then_eq; [exact Hwe | apply (IHv _ false g f); side | intros Hw2 He2 Hg2 Hf2 | | reflexivity | reflexivity | reflexivity].
+    + eapply R_then_eq; [exact Hw2 | apply (IHc _ g f); try side | intros Hw3 He3 Hg3 Hf3; apply (IHb _ None g f); try side | | reflexivity | reflexivity | reflexivity].
       * unfold top. rewrite He2. reflexivity.
       * apply flof_blk. unfold top. rewrite He3, He2. reflexivity.
       * reflexivity.
     + rewrite app_nil_r. reflexivity.
   - (* ENil *) intros st fl g f Hw _ -> ->. apply R_skip. exact Hw.
   - (* ECons *) intros e IHe r IHr st fl g f Hw Hfl Hg Hf. rewrite u_ECons.
-    chain; [apply (IHe _ fl g f); side | apply (IHr _ fl g f); side | reflexivity | reflexivity].
+    chain; [apply (IHe _ fl g f); side | apply (IHr _ fl g f); side | reflexivity | reflexivity | reflexivity | reflexivity].
   - (* ANil *) intros st ast fl g f Hw _ -> ->. rewrite u_ANil. apply R_skip. exact Hw.
   - (* APos *) intros n e IHe r IHr st ast fl g f Hw Hfl Hg Hf. rewrite u_APos. cbv zeta.
     match goal with |- context [expr_ opts W ?X e] => apply R_pre' with (st0 := X); [|intros Hw0 He0 Hg0 Hf0|exact Hw] end.
     { neu. }
-    chain; [apply (IHe _ fl g f); side | apply (IHr _ _ fl g f); side | reflexivity | reflexivity].
+    chain; [apply (IHe _ fl g f); side | apply (IHr _ _ fl g f); side | reflexivity | reflexivity | reflexivity | reflexivity].
   - (* ANamed *) intros n x e IHe r IHr st ast fl g f Hw Hfl Hg Hf. rewrite u_ANamed. cbv zeta.
     match goal with |- context [expr_ opts W ?X e] => apply R_pre' with (st0 := X); [|intros Hw0 He0 Hg0 Hf0|exact Hw] end.
     { neu. }
-    chain; [apply (IHe _ fl g f); side | apply (IHr _ _ fl g f); side | reflexivity | reflexivity].
+    chain; [apply (IHe _ fl g f); side | apply (IHr _ _ fl g f); side | reflexivity | reflexivity | reflexivity | reflexivity].
   - (* AStar *) intros n e IHe r IHr st ast fl g f Hw Hfl Hg Hf. rewrite u_AStar. cbv zeta.
     match goal with |- context [expr_ opts W ?X e] => apply R_pre' with (st0 := X); [|intros Hw0 He0 Hg0 Hf0|exact Hw] end.
     { neu. }
-    chain; [apply (IHe _ fl g f); side | apply (IHr _ _ fl g f); side | reflexivity | reflexivity].
+    chain; [apply (IHe _ fl g f); side | apply (IHr _ _ fl g f); side | reflexivity | reflexivity | reflexivity | reflexivity].
   - (* AStarStar *) intros n e IHe r IHr st ast fl g f Hw Hfl Hg Hf. rewrite u_AStarStar. cbv zeta.
     match goal with |- context [expr_ opts W ?X e] => apply R_pre' with (st0 := X); [|intros Hw0 He0 Hg0 Hf0|exact Hw] end.
     { neu. }
-    chain; [apply (IHe _ fl g f); side | apply (IHr _ _ fl g f); side | reflexivity | reflexivity].
+    chain; [apply (IHe _ fl g f); side | apply (IHr _ _ fl g f); side | reflexivity | reflexivity | reflexivity | reflexivity].
   - (* PNil *) split; [intros st fl g f Hw _ -> ->; apply R_skip; exact Hw|].
     intros st p g f Hw Ht -> ->. rewrite u_pNil. cbv zeta. unfold pstar, pss.
     destruct (p_star p) as [[n [[an ax]|]]|]; destruct (p_starstar p) as [[nn x]|]; simpl.
     + chain; [apply (R_bind_dup_blk opts W st an ax an); auto
              | rewrite <- Hg1, <- Hf1; apply (R_bind_dup_blk opts W _ nn x nn); [exact Hw1|eapply top_tr; eauto]
-             | reflexivity | reflexivity].
+             | reflexivity | reflexivity | reflexivity | reflexivity].
     + eapply R_ns; [|apply R_bind_dup_blk; auto]. reflexivity.
     + apply R_pre' with (st0 := if p_nkw p =? 0 then errorf st RParBareStar n else st); [neu| |exact Hw].
       intros Hw0 He0 Hg0 Hf0. rewrite <- Hg0, <- Hf0. apply R_bind_dup_blk; auto. eapply top_tr; eauto.
@@ -173,14 +129,14 @@ Proof.
     intros st p g f Hw Ht Hg Hf. rewrite u_pId. cbv zeta.
     match goal with |- context [bind_dup opts ?X n x n] => apply R_pre' with (st0 := X); [|intros Hw0 He0 Hg0 Hf0|exact Hw] end.
     { neu. }
-    chain; [apply (R_bind_dup_blk opts W _ n x n); [exact Hw0|eapply top_tr; eauto] | apply (IHp _ _ g f); try side | reflexivity | reflexivity].
+    chain; [apply (R_bind_dup_blk opts W _ n x n); [exact Hw0|eapply top_tr; eauto] | apply (IHp _ _ g f); try side | reflexivity | reflexivity | reflexivity | reflexivity].
   - (* PDef *) intros n x d IHe r [IHd IHp]. split.
     + intros st fl g f Hw Hfl Hg Hf. rewrite u_dDef.
-      chain; [apply (IHe _ fl g f); side | apply (IHd _ fl g f); side | reflexivity | reflexivity].
+      chain; [apply (IHe _ fl g f); side | apply (IHd _ fl g f); side | reflexivity | reflexivity | reflexivity | reflexivity].
     + intros st p g f Hw Ht Hg Hf. rewrite u_pDef. cbv zeta.
       match goal with |- context [bind_dup opts ?X n x n] => apply R_pre' with (st0 := X); [|intros Hw0 He0 Hg0 Hf0|exact Hw] end.
       { neu. }
-      chain; [apply (R_bind_dup_blk opts W _ n x n); [exact Hw0|eapply top_tr; eauto] | apply (IHp _ _ g f); try side | reflexivity | reflexivity].
+      chain; [apply (R_bind_dup_blk opts W _ n x n); [exact Hw0|eapply top_tr; eauto] | apply (IHp _ _ g f); try side | reflexivity | reflexivity | reflexivity | reflexivity].
     - (* PStar *) intros n name r [IHd IHp]. split; [intros st fl g f Hw Hfl Hg Hf; rewrite u_dStar; apply IHd; auto|].
     intros st p g f Hw Ht Hg Hf. rewrite u_pStar. unfold pstar, pss.
     destruct (p_starstar p) as [[nn x]|] eqn:Ess; [|destruct (p_star p) as [[n0 nm0]|] eqn:Est]; simpl.
@@ -200,11 +156,11 @@ Proof.
     unfold pstar, pss in *. simpl in H. apply H; try side.
   - (* CNil *) intros st g f Hw _ -> ->. apply R_skip. exact Hw.
   - (* CFor *) intros vars IHv iter IHi r IHr st g f Hw Ht Hg Hf. rewrite u_CFor.
-    chain; [apply (IHv _ false g f); side | | reflexivity | reflexivity].
-    eapply R_then_eq; [exact Hw1 | apply (IHi _ None g f); try side | intros Hw2 He2 Hg2 Hf2; apply (IHr _ g f); try side | reflexivity | reflexivity].
+    chain; [apply (IHv _ false g f); side | | reflexivity | reflexivity | reflexivity | reflexivity].
+    eapply R_then_eq; [exact Hw1 | apply (IHi _ None g f); try side | intros Hw2 He2 Hg2 Hf2; apply (IHr _ g f); try side | reflexivity | reflexivity | reflexivity | reflexivity].
     all: try (apply flof_blk; eapply top_tr; eauto).
   - (* CIf *) intros c IHc r IHr st g f Hw Ht Hg Hf. rewrite u_CIf.
-    chain; [apply (IHc _ None g f); try side | apply (IHr _ g f); try side | reflexivity | reflexivity].
+    chain; [apply (IHc _ None g f); try side | apply (IHr _ g f); try side | reflexivity | reflexivity | reflexivity | reflexivity].
     all: try (apply flof_blk; exact Ht).
   - (* LId *) intros n x st aug g f Hw Ht -> ->. rewrite u_LId. apply R_bind_blk; auto.
   - (* LSeq *) intros n ls IH st aug g f Hw Ht Hg Hf. rewrite u_LSeq.
@@ -214,33 +170,35 @@ Proof.
   - (* LBad *) intros n st aug g f Hw Ht -> ->. rewrite u_LBad. apply R_neutral; auto. neu.
   - (* LNil *) intros st aug g f Hw _ -> ->. apply R_skip. exact Hw.
   - (* LCons *) intros l IHl r IHr st aug g f Hw Ht Hg Hf. rewrite u_LCons.
-    chain; [apply (IHl _ aug g f); side | apply (IHr _ aug g f); try side | reflexivity | reflexivity].
+    chain; [apply (IHl _ aug g f); side | apply (IHr _ aug g f); try side | reflexivity | reflexivity | reflexivity | reflexivity].
 Qed.
 
 Definition to_names (items : list (N * string * N * string)) : list string :=
   map (fun it => match it with (_, _, _, to) => to end) items.
 
 Lemma R_load_blk items : forall st g f, WF st -> top st = false -> g = globals st -> f = fileb st ->
-  R st (load_items opts st items) (to_names items) [] g f.
+  R st (load_items opts st items) (to_names items) [] g f [] (tn_names items).
 Proof.
   induction items as [|[[[fn from] tn] to] items IH]; intros st g f Hw Ht Hg Hf; simpl load_items.
   - subst. apply R_skip. exact Hw.
   - match goal with |- context [bindLocal ?X tn to] => apply R_pre' with (st0 := X); [neu|intros Hw0 He0 Hg0 Hf0|exact Hw] end.
     destruct (o_load_binds_globally opts).
-    + eapply R_then_eq; [exact Hw0 | apply (R_bind_blk opts W _ tn to); [exact Hw0|side]
-                        | intros Hw1 He1 Hg1 Hf1; apply (IH _ g f); try side | reflexivity | reflexivity].
-    + match goal with |- context [load_items opts ?Y items] => eapply R_then_eq with (st1 := Y) end; [exact Hw0
-                        | eapply R_post; [apply (R_bindLocal_blk W _ tn to); [exact Hw0|side]|neu]
-                        | intros Hw1 He1 Hg1 Hf1; apply (IH _ g f); try side | reflexivity | reflexivity].
+    + eapply R_then_eq with (S1 := [tn]);
+        [exact Hw0 | eapply R_weakS; [apply (R_bind_blk opts W _ tn to); [exact Hw0|side]|intros y []]
+        | intros Hw1 He1 Hg1 Hf1; apply (IH _ g f); try side | reflexivity | reflexivity | reflexivity | reflexivity].
+    + cbv zeta.
+      match goal with |- context [load_items opts ?Y items] => eapply R_then_eq with (st1 := Y) (S1 := [tn]) end;
+        [exact Hw0 | apply (R_slack W _ _ _ _ _ _ _ [] _ tn); apply (R_bindLocal_blk W _ tn to); [exact Hw0|side]
+        | intros Hw1 He1 Hg1 Hf1; apply (IH _ g f); try side | reflexivity | reflexivity | reflexivity | reflexivity].
 Qed.
 
 Definition PS (s : stmt) : Prop := forall st g f, WF st -> top st = false -> g = globals st -> f = fileb st ->
-  R st (stmt_ opts W st s) (bound_stmt s) (uses_stmt s) g f.
+  R st (stmt_ opts W st s) (bound_stmt s) (uses_stmt s) g f [] (fn_loads_stmt s).
 Definition PSs (ss : stmts) : Prop := forall st g f, WF st -> top st = false -> g = globals st -> f = fileb st ->
-  R st (stmts_ opts W st ss) (bound_stmts ss) (uses_stmts ss) g f.
+  R st (stmts_ opts W st ss) (bound_stmts ss) (uses_stmts ss) g f [] (fn_loads_stmts ss).
 
 Ltac post_neu :=
-  match goal with |- ProofsScopeDefs.R _ _ (_ ?Y _) _ _ _ _ => apply R_post with (st1 := Y); [|neu] end.
+  match goal with |- ProofsScopeDefs2.R _ _ (_ ?Y _) _ _ _ _ _ _ => apply R_post with (st1 := Y); [|neu] end.
 
 Theorem walk_scope_stmts_blk : (forall s, PS s) /\ (forall ss, PSs ss).
 Proof.
@@ -250,29 +208,29 @@ Proof.
   - (* SBranch *) intros n st g f Hw Ht -> ->. rewrite u_SBranch. apply R_neutral; auto. neu.
   - (* SIf *) intros n c t IHt e IHe st g f Hw Ht Hg Hf. rewrite u_SIf. cbv zeta. post_neu.
     apply R_pre' with (st0 := gate opts st RIfToplevel n); [neu|intros Hw0 He0 Hg0 Hf0|exact Hw].
-    eapply R_then_eq; [exact Hw0 | apply (WE c _ None g f); side | intros Hw1 He1 Hg1 Hf1 | reflexivity | reflexivity].
+    eapply R_then_eq; [exact Hw0 | apply (WE c _ None g f); side | intros Hw1 He1 Hg1 Hf1 | reflexivity | reflexivity | reflexivity | reflexivity].
     match goal with |- context [stmts_ opts W ?X t] => apply R_pre' with (st0 := X); [neu|intros Hw2 He2 Hg2 Hf2|exact Hw1] end.
     eapply R_then_eq; [exact Hw2 | apply (IHt _ g f); side | intros Hw3 He3 Hg3 Hf3; apply (IHe _ g f); side
-                      | reflexivity | reflexivity].
+                      | reflexivity | reflexivity | reflexivity | reflexivity].
   - (* SAssign *) intros aug l e st g f Hw Ht Hg Hf. rewrite u_SAssign.
     eapply R_then_eq; [exact Hw | apply (WE e _ None g f); side | intros Hw1 He1 Hg1 Hf1; apply (WL l _ aug g f); side
-                      | reflexivity | reflexivity].
+                      | reflexivity | reflexivity | reflexivity | reflexivity].
   - (* SDef *) intros n nn x ps body IHb st g f Hw Ht Hg Hf. rewrite u_SDef. cbv zeta. destruct (WP ps) as [WPd WPp].
-    eapply R_then_eq; [exact Hw | apply (R_bind_blk opts W st nn x); side | intros Hw1 He1 Hg1 Hf1 | reflexivity | reflexivity].
-    eapply R_then_eq; [exact Hw1 | apply (WPd _ None g f); side | intros Hw2 He2 Hg2 Hf2 | reflexivity | reflexivity].
-    apply R_fn; [exact Hw2|]. pose proof (WF_enter _ Hw2) as Hwe.
+    eapply R_then_eq; [exact Hw | apply (R_bind_blk opts W st nn x); side | intros Hw1 He1 Hg1 Hf1 | reflexivity | reflexivity | reflexivity | reflexivity].
+    eapply R_then_eq; [exact Hw1 | apply (WPd _ None g f); side | intros Hw2 He2 Hg2 Hf2 | reflexivity | reflexivity | reflexivity | reflexivity].
+    apply R_fn; [exact Hw2|]. pose proof (WF_enter W _ Hw2) as Hwe.
     eapply R_then_eq; [exact Hwe | apply (WPp _ p0 g f); side | intros Hw3 He3 Hg3 Hf3; apply (IHb _ g f); try side
-                      | reflexivity | reflexivity].
+                      | reflexivity | reflexivity | reflexivity | reflexivity].
     unfold top. rewrite He3. reflexivity.
   - (* SFor *) intros n vars iter body IHb st g f Hw Ht Hg Hf. rewrite u_SFor. cbv zeta. post_neu.
     apply R_pre' with (st0 := gate opts st RForToplevel n); [neu|intros Hw0 He0 Hg0 Hf0|exact Hw].
-    eapply R_then_eq; [exact Hw0 | apply (WE iter _ None g f); side | intros Hw1 He1 Hg1 Hf1 | reflexivity | reflexivity].
-    eapply R_then_eq; [exact Hw1 | apply (WL vars _ false g f); side | intros Hw2 He2 Hg2 Hf2 | reflexivity | reflexivity].
+    eapply R_then_eq; [exact Hw0 | apply (WE iter _ None g f); side | intros Hw1 He1 Hg1 Hf1 | reflexivity | reflexivity | reflexivity | reflexivity].
+    eapply R_then_eq; [exact Hw1 | apply (WL vars _ false g f); side | intros Hw2 He2 Hg2 Hf2 | reflexivity | reflexivity | reflexivity | reflexivity].
     match goal with |- context [stmts_ opts W ?X body] => apply R_pre' with (st0 := X); [neu|intros Hw3 He3 Hg3 Hf3|exact Hw2] end.
     apply (IHb _ g f); side.
   - (* SWhile *) intros n c body IHb st g f Hw Ht Hg Hf. rewrite u_SWhile. cbv zeta. post_neu.
     match goal with |- context [expr_ opts W ?X c] => apply R_pre' with (st0 := X); [neu|intros Hw0 He0 Hg0 Hf0|exact Hw] end.
-    eapply R_then_eq; [exact Hw0 | apply (WE c _ None g f); side | intros Hw1 He1 Hg1 Hf1 | reflexivity | reflexivity].
+    eapply R_then_eq; [exact Hw0 | apply (WE c _ None g f); side | intros Hw1 He1 Hg1 Hf1 | reflexivity | reflexivity | reflexivity | reflexivity].
     match goal with |- context [stmts_ opts W ?X body] => apply R_pre' with (st0 := X); [neu|intros Hw3 He3 Hg3 Hf3|exact Hw1] end.
     apply (IHb _ g f); side.
   - (* SReturn *) intros n e st g f Hw Ht Hg Hf. rewrite u_SReturn. cbv zeta.
@@ -287,21 +245,10 @@ Proof.
   - (* SNil *) intros st g f Hw _ -> ->. apply R_skip. exact Hw.
   - (* SCons *) intros s IHs r IHr st g f Hw Ht Hg Hf. rewrite u_SCons.
     eapply R_then_eq; [exact Hw | apply (IHs _ g f); side | intros Hw1 He1 Hg1 Hf1; apply (IHr _ g f); side
-                      | reflexivity | reflexivity].
+                      | reflexivity | reflexivity | reflexivity | reflexivity].
 Qed.
 
 (* ---- file level ---- *)
-Lemma R_bindLocal_top st n x :
-  WF st -> top st = true ->
-  R st (snd (bindLocal st n x)) [x] [] (globals st) (if smem x (fileb st) then fileb st else fileb st ++ [x]).
-Proof.
-  intros Hw Ht. pose proof Ht as Ht'. unfold top in Ht'. unfold bindLocal.
-  destruct (env st) eqn:Ee; [discriminate|]. change (smem x (fileb st)) with (mem x (fileb st)).
-  destruct (mem x (fileb st)); simpl.
-  - split; [exact Hw|]. split; [apply Frame_top; auto|]. split; auto. split; auto. apply Uses_nil; auto. tauto.
-  - split; [exact Hw|]. split; [apply Frame_top; auto|]. split; auto. split; auto. apply Uses_nil; auto. tauto.
-Qed.
-
 Lemma snd_t_bind_LId g f n x : snd (t_bind opts g f (LId n x)) = addg g f x.
 Proof.
   unfold addg.
@@ -327,31 +274,54 @@ Proof.
   - destruct (smem to f); reflexivity.
 Qed.
 
+Lemma fst_t_load_cons g f fn from tn to items :
+  fst (t_load opts g f ((fn, from, tn, to) :: items)) =
+  if o_load_binds_globally opts then fst (t_bind opts g f (LId tn to)) ++ fst (t_load opts (addg g f to) f items)
+  else if smem to f then when (negb (o_global_reassign opts)) RLoadReassign tn ++ fst (t_load opts g f items)
+       else fst (t_load opts g (f ++ [to]) items).
+Proof.
+  change (t_load opts g f ((fn, from, tn, to) :: items)) with
+    (if o_load_binds_globally opts then
+       let a := t_bind opts g f (LId tn to) in
+       let b := t_load opts (snd a) f items in (fst a ++ fst b, snd b)
+     else if smem to f then
+       let b := t_load opts g f items in (when (negb (o_global_reassign opts)) RLoadReassign tn ++ fst b, snd b)
+     else t_load opts g (f ++ [to]) items).
+  destruct (o_load_binds_globally opts).
+  - cbv zeta. simpl fst. rewrite snd_t_bind_LId. reflexivity.
+  - destruct (smem to f); reflexivity.
+Qed.
+
 Lemma R_load_top items : forall st g f, WF st -> top st = true -> g = globals st -> f = fileb st ->
   R st (load_items opts st items) (to_names items) []
-    (fst (snd (t_load opts g f items))) (snd (snd (t_load opts g f items))).
+    (fst (snd (t_load opts g f items))) (snd (snd (t_load opts g f items))) (fst (t_load opts g f items)) [].
 Proof.
   induction items as [|[[[fn from] tn] to] items IH]; intros st g f Hw Ht Hg Hf.
   - simpl. subst. apply R_skip. exact Hw.
-  - rewrite snd_t_load_cons. simpl load_items.
+  - rewrite snd_t_load_cons, fst_t_load_cons. simpl load_items.
     match goal with |- context [bindLocal ?X tn to] => apply R_pre' with (st0 := X); [neu|intros Hw0 He0 Hg0 Hf0|exact Hw] end.
+    rewrite Hg, Hf, <- Hg0, <- Hf0.
+    assert (Ht0 : top (if starts_with_underscore from then errorf st RLoadUnderscore fn else st) = true)
+      by (eapply top_tr; eauto).
     destruct (o_load_binds_globally opts).
-    + eapply R_then_eq; [exact Hw0 | apply (R_bind_top opts W _ tn to); [exact Hw0|side]
-                        | intros Hw1 He1 Hg1 Hf1 | reflexivity | reflexivity].
-      apply (IH _ (addg g f to) f Hw1); side.
-    + match goal with |- context [load_items opts ?Y items] => eapply R_then_eq with (st1 := Y) end;
-        [exact Hw0 | eapply R_post; [apply (R_bindLocal_top _ tn to); [exact Hw0|side]|neu]
-        | intros Hw1 He1 Hg1 Hf1 | reflexivity | reflexivity].
-      rewrite Hf0, <- Hf in Hf1. rewrite Hg0, <- Hg in Hg1.
-      destruct (smem to f) eqn:Em.
-      * apply (IH _ g f Hw1); side.
-      * apply (IH _ g (f ++ [to]) Hw1); side.
+    + eapply R_then_eq; [exact Hw0 | apply (R_bind_top opts W _ tn to); [exact Hw0|exact Ht0]
+                        | intros Hw1 He1 Hg1 Hf1 | reflexivity | reflexivity | reflexivity | reflexivity].
+      apply (IH _ _ _ Hw1); side.
+    + cbv zeta.
+      pose proof (R_loadre_top opts W _ tn to Hw0 Ht0) as HL.
+      destruct (smem to (fileb (if starts_with_underscore from then errorf st RLoadUnderscore fn else st))) eqn:Em.
+      * match goal with |- context [load_items opts ?Y items] => eapply R_then_eq with (st1 := Y) end;
+          [exact Hw0 | exact HL | intros Hw1 He1 Hg1 Hf1; apply (IH _ _ _ Hw1); side
+          | reflexivity | reflexivity | reflexivity | reflexivity].
+      * match goal with |- context [load_items opts ?Y items] => eapply R_then_eq with (st1 := Y) end;
+          [exact Hw0 | exact HL | intros Hw1 He1 Hg1 Hf1; apply (IH _ _ _ Hw1); side
+          | reflexivity | reflexivity | reflexivity | reflexivity].
 Qed.
 
 Definition PLt (l : lhs) : Prop := forall st aug g f, WF st -> top st = true -> g = globals st -> f = fileb st ->
-  R st (assign_ opts W st aug l) (lhs_names l) (fst (tu_lhs opts g f l)) (snd (tu_lhs opts g f l)) f.
+  R st (assign_ opts W st aug l) (lhs_names l) (fst (tu_lhs opts g f l)) (snd (tu_lhs opts g f l)) f (re_lhs opts g f l) [].
 Definition PLst (ls : lhss) : Prop := forall st aug g f, WF st -> top st = true -> g = globals st -> f = fileb st ->
-  R st (assigns_ opts W st aug ls) (lhss_names ls) (fst (tu_lhss opts g f ls)) (snd (tu_lhss opts g f ls)) f.
+  R st (assigns_ opts W st aug ls) (lhss_names ls) (fst (tu_lhss opts g f ls)) (snd (tu_lhss opts g f ls)) f (re_lhss opts g f ls) [].
 
 Lemma walk_lhs_top : (forall l, PLt l) /\ (forall ls, PLst ls).
 Proof.
@@ -370,16 +340,18 @@ Proof.
     - intros l IHl r IHr st aug g f Hw Ht Hg Hf. rewrite u_LCons.
       eapply R_then_eq; [exact Hw | apply (IHl _ aug g f); side
                         | intros Hw1 He1 Hg1 Hf1; apply (IHr _ aug (snd (tu_lhs opts g f l)) f); side
-                        | reflexivity | reflexivity]. }
+                        | reflexivity | reflexivity | reflexivity | reflexivity]. }
   tauto.
 Qed.
 
 Definition PT (s : stmt) : Prop := forall st g f, WF st -> top st = true -> g = globals st -> f = fileb st ->
   R st (stmt_ opts W st s) (bound_stmt s) (fst (tu_stmt opts g f s))
-    (fst (snd (tu_stmt opts g f s))) (snd (snd (tu_stmt opts g f s))).
+    (fst (snd (tu_stmt opts g f s))) (snd (snd (tu_stmt opts g f s)))
+    (re_stmt opts g f s) (top_fn_loads_stmt s).
 Definition PTs (ss : stmts) : Prop := forall st g f, WF st -> top st = true -> g = globals st -> f = fileb st ->
   R st (stmts_ opts W st ss) (bound_stmts ss) (fst (tu_stmts opts g f ss))
-    (fst (snd (tu_stmts opts g f ss))) (snd (snd (tu_stmts opts g f ss))).
+    (fst (snd (tu_stmts opts g f ss))) (snd (snd (tu_stmts opts g f ss)))
+    (re_stmts opts g f ss) (top_fn_loads_stmts ss).
 
 Theorem walk_scope_stmts_top : (forall s, PT s) /\ (forall ss, PTs ss).
 Proof.
@@ -391,35 +363,36 @@ Proof.
   - (* SBranch *) intros n st g f Hw Ht -> ->. rewrite u_SBranch. apply R_neutral; auto. neu.
   - (* SIf *) intros n c t IHt e IHe st g f Hw Ht Hg Hf. rewrite u_SIf. cbv zeta. post_neu.
     apply R_pre' with (st0 := gate opts st RIfToplevel n); [neu|intros Hw0 He0 Hg0 Hf0|exact Hw].
-    eapply R_then_eq; [exact Hw0 | apply (WE c _ (fl_of opts g f) g f); side | intros Hw1 He1 Hg1 Hf1 | reflexivity | reflexivity].
+    eapply R_then_eq; [exact Hw0 | apply (WE c _ (fl_of opts g f) g f); side | intros Hw1 He1 Hg1 Hf1 | reflexivity | reflexivity | reflexivity | reflexivity].
     match goal with |- context [stmts_ opts W ?X t] => apply R_pre' with (st0 := X); [neu|intros Hw2 He2 Hg2 Hf2|exact Hw1] end.
     eapply R_then_eq; [exact Hw2 | apply (IHt _ g f); side
                       | intros Hw3 He3 Hg3 Hf3;
                         apply (IHe _ (fst (snd (tu_stmts opts g f t))) (snd (snd (tu_stmts opts g f t)))); side
-                      | reflexivity | reflexivity].
+                      | reflexivity | reflexivity | reflexivity | reflexivity].
   - (* SAssign *) intros aug l e st g f Hw Ht Hg Hf. rewrite u_SAssign.
     eapply R_then_eq; [exact Hw | apply (WE e _ (fl_of opts g f) g f); side
                       | intros Hw1 He1 Hg1 Hf1; apply (WLt l _ aug g f); side
-                      | reflexivity | reflexivity].
+                      | reflexivity | reflexivity | reflexivity | reflexivity].
   - (* SDef *) intros n nn x ps body IHb st g f Hw Ht Hg Hf. rewrite u_SDef. cbv zeta. destruct (WP ps) as [WPd WPp].
-    eapply R_then_eq; [exact Hw | apply (R_bind_top opts W st nn x); side | intros Hw1 He1 Hg1 Hf1 | reflexivity | reflexivity].
+    eapply R_then_eq; [exact Hw | apply (R_bind_top opts W st nn x); side | intros Hw1 He1 Hg1 Hf1 | reflexivity | reflexivity | | reflexivity].
+    2:{ rewrite Hg, Hf. simpl. rewrite app_nil_r. reflexivity. }
     rewrite <- Hg, <- Hf in *.
     eapply R_then_eq; [exact Hw1 | apply (WPd _ (fl_of opts (addg g f x) f) (addg g f x) f); side
-                      | intros Hw2 He2 Hg2 Hf2 | reflexivity | reflexivity].
-    apply R_fn; [exact Hw2|]. pose proof (WF_enter _ Hw2) as Hwe.
+                      | intros Hw2 He2 Hg2 Hf2 | reflexivity | reflexivity | reflexivity | reflexivity].
+    apply R_fn; [exact Hw2|]. pose proof (WF_enter W _ Hw2) as Hwe.
     eapply R_then_eq; [exact Hwe | apply (WPp _ p0 (addg g f x) f); side
                       | intros Hw3 He3 Hg3 Hf3; apply (WSs body _ (addg g f x) f); try side
-                      | reflexivity | reflexivity].
+                      | reflexivity | reflexivity | reflexivity | reflexivity].
     unfold top. rewrite He3. reflexivity.
   - (* SFor *) intros n vars iter body IHb st g f Hw Ht Hg Hf. rewrite u_SFor. cbv zeta. post_neu.
     apply R_pre' with (st0 := gate opts st RForToplevel n); [neu|intros Hw0 He0 Hg0 Hf0|exact Hw].
-    eapply R_then_eq; [exact Hw0 | apply (WE iter _ (fl_of opts g f) g f); side | intros Hw1 He1 Hg1 Hf1 | reflexivity | reflexivity].
-    eapply R_then_eq; [exact Hw1 | apply (WLt vars _ false g f); side | intros Hw2 He2 Hg2 Hf2 | reflexivity | reflexivity].
+    eapply R_then_eq; [exact Hw0 | apply (WE iter _ (fl_of opts g f) g f); side | intros Hw1 He1 Hg1 Hf1 | reflexivity | reflexivity | reflexivity | reflexivity].
+    eapply R_then_eq; [exact Hw1 | apply (WLt vars _ false g f); side | intros Hw2 He2 Hg2 Hf2 | reflexivity | reflexivity | reflexivity | reflexivity].
     match goal with |- context [stmts_ opts W ?X body] => apply R_pre' with (st0 := X); [neu|intros Hw3 He3 Hg3 Hf3|exact Hw2] end.
     apply (IHb _ (snd (tu_lhs opts g f vars)) f); side.
   - (* SWhile *) intros n c body IHb st g f Hw Ht Hg Hf. rewrite u_SWhile. cbv zeta. post_neu.
     match goal with |- context [expr_ opts W ?X c] => apply R_pre' with (st0 := X); [neu|intros Hw0 He0 Hg0 Hf0|exact Hw] end.
-    eapply R_then_eq; [exact Hw0 | apply (WE c _ (fl_of opts g f) g f); side | intros Hw1 He1 Hg1 Hf1 | reflexivity | reflexivity].
+    eapply R_then_eq; [exact Hw0 | apply (WE c _ (fl_of opts g f) g f); side | intros Hw1 He1 Hg1 Hf1 | reflexivity | reflexivity | reflexivity | reflexivity].
     match goal with |- context [stmts_ opts W ?X body] => apply R_pre' with (st0 := X); [neu|intros Hw3 He3 Hg3 Hf3|exact Hw1] end.
     apply (IHb _ g f); side.
   - (* SReturn *) intros n e st g f Hw Ht Hg Hf. rewrite u_SReturn. cbv zeta.
@@ -436,7 +409,7 @@ Proof.
     eapply R_then_eq; [exact Hw | apply (IHs _ g f); side
                       | intros Hw1 He1 Hg1 Hf1;
                         apply (IHr _ (fst (snd (tu_stmt opts g f s))) (snd (snd (tu_stmt opts g f s)))); side
-                      | reflexivity | reflexivity].
+                      | reflexivity | reflexivity | reflexivity | reflexivity].
 Qed.
 
 End Wk.
